@@ -6,8 +6,10 @@
    Transliteration notes (the quirks are kept):
    * order-only inputs are requested with TaskInterface::mustFollow: the engine never hands their values to
      provideValue, so neither their timestamps nor their FAILURE reach the task;
-   * shouldSkip is examined only AFTER the update-if-newer shortcut, so a command with a failed or missing
-     input whose outputs are newer than its other inputs is completed with a successful value;
+   * a failed / missing / skipped input sets shouldSkip AND clears canUpdateIfNewer (repair a03bdd8; before
+     it shouldSkip was examined only after the update-if-newer shortcut: [provide_unrepaired]);
+   * the command hash is getCommandHash(command) (repair 66b1a7c): command line, number of explicit and of
+     implicit inputs, canonical path of every input in order ([hash_material]); it is an opaque number here;
    * a phony command completes with a successful value whatever its inputs delivered;
    * FileInfo and its `missing' sentinel / operator== are the ones of Codec.FileObs (tied to the code by C13). *)
 From LLB Require Import Base.Bytes Codec.Codec Codec.FileObs.
@@ -53,7 +55,7 @@ Definition nth_output_info (infos : list fileinfo) (n : nat) : nth_info_result :
 
 (* ---- the command and the build context ---- *)
 Record cmd := mkCmd {
-  c_hash : N;             (* CommandSignature(command->getCommandString()) *)
+  c_hash : N;             (* getCommandHash(command), see hash_material *)
   c_generator : bool;     (* generator binding non-empty *)
   c_phony : bool;         (* rule == manifest->getPhonyRule() *)
   c_has_deps : bool;      (* getDepsStyle() != None  (deps = gcc, or a depfile) *)
@@ -87,11 +89,21 @@ Definition provide (st : tstate) (v : nvalue) : tstate :=
       else if ts_ltb (t_newest st) (mod_time f)      (* outputInfo.modTime > newestModTime *)
            then mkT (t_should_skip st) (t_has_missing st) (t_can_update st) (mod_time f)
            else st
-  | NMissingInput => mkT true true (t_can_update st) (t_newest st)
-  | NFailedCommand | NSkippedCommand => mkT true (t_has_missing st) (t_can_update st) (t_newest st)
+  | NMissingInput => mkT true true false (t_newest st)
+  | NFailedCommand | NSkippedCommand => mkT true (t_has_missing st) false (t_newest st)
   end.
 
-Definition provide_all (c : cmd) (ins : list input) : tstate := fold_left provide (requested ins) (init_state c).
+(* provideValue before the repair: canUpdateIfNewer was left alone by failed / missing / skipped inputs *)
+Definition provide_unrepaired (st : tstate) (v : nvalue) : tstate :=
+  match v with
+  | NMissingInput => mkT true true (t_can_update st) (t_newest st)
+  | NFailedCommand | NSkippedCommand => mkT true (t_has_missing st) (t_can_update st) (t_newest st)
+  | _ => provide st v
+  end.
+
+Definition provide_all_with (prov : tstate -> nvalue -> tstate) (c : cmd) (ins : list input) : tstate :=
+  fold_left prov (requested ins) (init_state c).
+Definition provide_all := provide_all_with provide.
 
 (* newestModTime after all inputs have been delivered *)
 Definition newest_mod_time (ins : list input) : ts :=
@@ -129,16 +141,20 @@ Inductive decision :=
 Definition hash_allows_update (c : cmd) (prior : option nvalue) : bool :=
   c_generator c || match prior_hash prior with Some h => N.eqb h (c_hash c) | None => false end.
 
-Definition decide (x : ctx) (c : cmd) (prior : option nvalue) (ins : list input) (outs : list fileinfo) : decision :=
+Definition decide_with (prov : tstate -> nvalue -> tstate)
+           (x : ctx) (c : cmd) (prior : option nvalue) (ins : list input) (outs : list fileinfo) : decision :=
   if x_cancelled x then DCancelled
   else if c_phony c then DPhony (existsb is_missing outs)
   else
-    let st := provide_all c ins in
+    let st := provide_all_with prov c ins in
     if t_can_update st && hash_allows_update c prior && can_update_with_result (x_strict x) (t_newest st) outs
     then DUpdateOnly
     else if x_simulate x then DSimulate
     else if t_should_skip st then DSkip (t_has_missing st)
     else DRun.
+
+Definition decide := decide_with provide.
+Definition decide_unrepaired := decide_with provide_unrepaired.
 
 (* the value the task completes with when no process is spawned *)
 Definition produced (c : cmd) (outs : list fileinfo) (d : decision) : option nvalue :=
@@ -241,7 +257,7 @@ Definition delivers_missing (v : nvalue) : bool :=
 Definition stamped (v : nvalue) : bool := negb (is_bad v) && negb (delivers_missing v).
 
 Definition shortcut (x : ctx) (c : cmd) (prior : option nvalue) (ins : list input) (outs : list fileinfo) : bool :=
-  negb (c_has_deps c) && forallb (fun v => negb (delivers_missing v)) (requested ins) &&
+  negb (c_has_deps c) && forallb stamped (requested ins) &&
   hash_allows_update c prior && can_update_with_result (x_strict x) (newest_mod_time ins) outs.
 
 Definition fi_at (ino sec nsec : N) : fileinfo := mkFI 1 ino 33188 1 sec nsec zeros32.
@@ -261,3 +277,12 @@ Definition swap_explicit_implicit (k : iclass) : iclass :=
 (* every output strictly newer than every delivered input (a logical clock) *)
 Definition all_newer (ins : list input) (outs : list fileinfo) : Prop :=
   forall o v, In o outs -> In v (requested ins) -> stamped v = true -> ts_lt (mod_time (output_info v)) (mod_time o).
+
+(* ---- what getCommandHash(command) hashes (repair 66b1a7c) ----
+   CommandSignature(commandString).combine(numExplicit).combine(numImplicit).combine(path) for EVERY input, in the
+   order explicit, implicit, order-only.  The signature function itself is opaque; this is its argument. *)
+Record cmd_def := mkDef { d_command : bytes; d_explicit : list bytes; d_implicit : list bytes; d_order_only : list bytes }.
+Definition hash_material (d : cmd_def) : bytes * nat * nat * list bytes :=
+  (d_command d, length (d_explicit d), length (d_implicit d), d_explicit d ++ d_implicit d ++ d_order_only d).
+(* ... and before the repair *)
+Definition hash_material_unrepaired (d : cmd_def) : bytes := d_command d.
